@@ -32,7 +32,8 @@ LEVEL_TEXT = ("Proof (Coq, no axioms): for every derivation tree (any depth/bran
               "and navigation helpers are tied to delphin/derivation.py by kernel-checked correspondence.")
 LEVEL_NOTE = ("Partial: the character-level regular-expression scanner and %g are oracles. parent pointers are "
               "checked by the oracle only (a pure tree has no parent field). One defect (F14) was repaired by a "
-              "fix: commit.")
+              "fix: commit. F35 (a head mark or type on the root node is lost by UDX text and by the dictionary form) is a "
+              "known finding.")
 TECHNIQUE = "Coq proof (token-level parse-of-print by tree induction) + kernel-checked correspondence"
 DESIGN_REF = "DESIGN.md section 6, C16"
 
@@ -71,6 +72,12 @@ def gen(rng, tier):
             cases.append({"k": "parse", "t": t, "indent": rng.choice([None, 1, 3]), "udx": udx})
         cases.append({"k": "dict", "t": t})
         cases.append({"k": "nav", "t": t})
+    # a head mark or a type on the root node itself (oracle only; see F35)
+    leaf = {"id": 1, "entity": "ent", "score": 0.5, "start": 0, "end": 1, "head": False, "type": None,
+            "dtrs": [{"form": "a", "tokens": []}]}
+    for head, typ in ((True, None), (False, "rt"), (True, "rt")):
+        cases.append({"k": "rootmark", "t": {"id": None, "entity": "root", "score": None, "start": None, "end": None,
+                                             "head": head, "type": typ, "dtrs": [leaf]}})
     return cases
 
 
@@ -133,6 +140,8 @@ def observe(c):
     from delphin import derivation as D
     d = _build(c["t"])
     k = c["k"]
+    if k == "rootmark":
+        return {"text": d.to_udx(indent=None)}
     if k == "format":
         return {"text": d.to_udx(indent=c["indent"]) if c["udx"] else d.to_udf(indent=c["indent"])}
     if k == "parse":
@@ -164,6 +173,20 @@ def oracle(c):
                     _strip(want)
                 if got != want:
                     return "the parsed %s tree differs from the original" % ("UDX" if udx else "UDF")
+    if c["k"] == "rootmark":
+        text = d.to_udx(indent=None)
+        try:
+            p = D.from_string(text)
+        except Exception as e:
+            return "the UDX text %r of a derivation whose root carries a head mark or a type cannot be parsed (%s)" % (
+                text, type(e).__name__)
+        if _extract(p) != _want(c["t"]) or p.to_udx(indent=None) != text:
+            return "a head mark or type on the root node is lost: %r parses to entity %r, type %r" % (
+                text, p.entity, p.type)
+        e = D.from_dict(d.to_dict())
+        if _extract(e) != _want(c["t"]):
+            return "a head mark or type on the root node is lost by to_dict/from_dict"
+        return None
     if c["k"] == "dict":
         e = D.from_dict(d.to_dict())
         if e != d or e.to_dict() != d.to_dict() or _extract(e) != _want(c["t"]):
@@ -212,6 +235,11 @@ def _strip(t):
 
 
 def known_match(case, failure, known):
+    if case.get("k") == "rootmark" and isinstance(failure, str) and "root" in failure and \
+            case["t"]["id"] is None and (case["t"]["head"] or case["t"]["type"] is not None):
+        for e in known:
+            if e["id"] == "F35":
+                return "F35"
     return None
 
 
@@ -245,6 +273,8 @@ def _keys(l):
 
 
 def coq_case(c, o):
+    if c["k"] == "rootmark":
+        return None          # decided by the oracle
     if "exc" in o:
         raise ValueError("exception " + o["exc"])
     k = c["k"]
